@@ -84,6 +84,9 @@ LEFT JOIN contracts rt ON (c.renewed_to=rt.id)
 LEFT JOIN contracts rf ON (c.renewed_from=rf.id) %s`, whereClause)
 
 	err = s.transaction(func(tx *txn) error {
+		// the transaction may be retried: start from an empty result
+		contracts = contracts[:0]
+
 		if err := tx.QueryRow(countQuery, whereParams...).Scan(&count); err != nil {
 			return fmt.Errorf("failed to query contract count: %w", err)
 		}
@@ -162,6 +165,9 @@ WHERE c.contract_id=$1;`
 // RebroadcastFormationSets returns formation sets that should be rebroadcast
 func (s *Store) RebroadcastFormationSets(minNegotiationheight uint64) (rebroadcast [][]types.Transaction, err error) {
 	err = s.transaction(func(tx *txn) error {
+		// the transaction may be retried: start from an empty result
+		rebroadcast = rebroadcast[:0]
+
 		rows, err := tx.Query(`SELECT formation_txn_set FROM contracts WHERE formation_confirmed=false AND negotiation_height > $1`, minNegotiationheight)
 		if err != nil {
 			return err
@@ -210,6 +216,9 @@ LEFT JOIN contracts_v2 rt ON (c.renewed_to=rt.id)
 LEFT JOIN contracts_v2 rf ON (c.renewed_from=rf.id) %s`, whereClause)
 
 	err = s.transaction(func(tx *txn) error {
+		// the transaction may be retried: start from an empty result
+		contracts = contracts[:0]
+
 		if err := tx.QueryRow(countQuery, whereParams...).Scan(&count); err != nil {
 			return fmt.Errorf("failed to query contract count: %w", err)
 		}
